@@ -38,6 +38,14 @@ CHECKS = {
                      "disk model; complete enumeration per buffer size, including a buffer larger than a block.",
                 note="trusted: [MS-VHDX] transcription in mc/builders/vhdx.py (decodes all three fixtures incl. CRC-32C), "
                      "CPython, AlignedStream; requests longer than a few buffers are a fixed list (cost follows bytes)"),
+    "C02": dict(level=MC, ref="DESIGN.md section 4 C02",
+                text="Every extent of the bounded space (hosted KDMV with header GD, stream-optimized with footer GD and "
+                     "markers, compressed with header GD, COWD, SE-sparse, flat; grain sizes; capacity forms; windows at "
+                     "grain 0, straddling a grain-table boundary and behind an absent table, incl. grain directories of 129 "
+                     "entries; every hole/zero/data assignment and injective placement of a 3-4 grain window) is read with "
+                     "every boundary request via seek/read and VMDK.read_sectors against a reference disk model.",
+                note="trusted: VMware VDF 1.1 / QEMU vmdk.c transcription in mc/builders/vmdk.py (round-trip decoder; decodes "
+                     "the SE-sparse fixture), zlib, CPython, AlignedStream"),
 }
 
 PENDING_REASON = "check not built yet in this session (planned in DESIGN.md section 4); not claimed until it runs"
